@@ -22,6 +22,7 @@ REC_ACTIONS = ("Open", "Close", "RwInt", "RwBool", "RwLong", "RwFloat", "RwDoubl
                "RwLongAscii", "ReadBack")
 FORMATS = ("GEODST", "DIF3D", "NHFLUX", "LABELS", "PWDINT", "RTFLUX", "RZFLUX", "FIXSRC", "ISOTXS", "GAMISO", "PMATRX", "DLAYXS", "COMPXS")
 FMT_GROUPS = ("a", "b", "c")
+NWORKERS = 3          # worker processes running the real code (lanes of harness/gen_cccc.run_jobs)
 
 
 def _tlc_verdict(rep, label, res):
@@ -104,6 +105,70 @@ def check_record_case(case, seed):
     return out
 
 
+# ------------------------------------------------------------------------------------------------------------
+# jobs: everything that executes armi code runs in forked worker processes (harness/gen_cccc.run_jobs)
+# ------------------------------------------------------------------------------------------------------------
+_TIMEOUTS = {}
+
+
+def _strip(found):
+    """(key, text, payload) without the bulky case (the parent re-attaches it)."""
+    return [(k, t, {a: b for a, b in (pl or {}).items() if a != "case"}) for k, t, pl in found]
+
+
+def do_job(job):
+    """Runs inside a worker.  -> picklable result."""
+    kind = job[0]
+    if kind == "record":
+        return _strip(check_record_case(job[1], job[2]))
+    if kind == "format":
+        _, case, cseed, want_loca = job
+        fmt = case["fmt"]
+        if _TIMEOUTS.get(fmt, 0) >= 2:
+            return {"skipped": "timeout-cap"}      # every further case would cost the watchdog time: verdict already recorded
+        found = _strip(check_format_case(case, cseed))
+        if any(":timeout:" in k for k, _, _ in found):
+            _TIMEOUTS[fmt] = _TIMEOUTS.get(fmt, 0) + 1
+        return {"found": found, "stages": check_format_case.stages,
+                "loca": G.isotxs_loca(case, cseed, scratch()) if want_loca else None}
+    if kind == "traces":
+        return G.record_traces(*job[1:])
+    if kind == "fixture":
+        return G.run_fixture(job[1], scratch())
+    raise ValueError(kind)
+
+
+def crash_class(job):
+    if job[0] == "format":
+        return "%s|%s" % (job[1]["fmt"], job[1].get("cls"))
+    if job[0] == "record":
+        return "record|%s" % "+".join(sorted({t[1] for t in _tags(job[1])}))
+    return job[0] + "|" + (job[1]["name"] if job[0] == "fixture" else "")
+
+
+def crash_key(job, sig):
+    """A worker died on this job (native crash of the code under test, or killed): that is the verdict for the job."""
+    if job[0] == "format":
+        return "%s:crash:%s:%s" % (job[1]["fmt"], sig, job[1].get("cls", "any")), (
+            "%s [%s]: the process running the real reader / writer on this case died with %s" % (job[1]["fmt"], job[1].get("cls"), sig))
+    if job[0] == "record":
+        return record_key(job[1], None, "crash-" + sig), "the process running the real record classes on this case died with %s" % sig
+    if job[0] == "fixture":
+        return "fixture:%s:crash:%s" % (job[1]["name"], sig), "fixture %s: the process re-writing it died with %s" % (job[1]["name"], sig)
+    return "trace:record:crash:%s" % sig, "the process recording writer histories died with %s" % sig
+
+
+def run_jobs(jobs, nworkers):
+    """-> list aligned with jobs of (status, result); 'error' (a harness problem inside a worker) is machinery."""
+    out = G.run_jobs(jobs, do_job, nworkers=nworkers, crash_class=crash_class)
+    for job, r in zip(jobs, out):
+        if r is None:
+            raise tlc.MachineryError("no result for job %s" % (job[0],))
+        if r[0] == "error":
+            raise tlc.MachineryError("worker failed on a %s job: %s" % (job[0], r[1]))
+    return out
+
+
 def _nfields(case):
     return sum(len(r["fields"]) for r in case["recs"])
 
@@ -122,6 +187,7 @@ def run_records(rep, thorough, seed, results):
     n = nontriv = 0
     atomic = {}  # (enc, kind) -> key of the single-field case that already explains a divergence
     sample = None
+    jobs = []
     for k in ("rec_emit", "rec_vals", "rec_two"):
         res = results[k]
         _tlc_verdict(rep, "cases:" + res.cfgname, res)
@@ -129,29 +195,43 @@ def run_records(rep, thorough, seed, results):
         if not cases:
             raise tlc.MachineryError("no record cases printed by %s" % res.cfgname)
         cases.sort(key=_nfields)
-        for i, case in enumerate(cases):
-            n += 1
-            nontriv += 1 if _nfields(case) else 0
-            if sample is None and _nfields(case) == 3:
-                sample = case
-            for key, text, payload in check_record_case(case, seed * 1000003 + i):
-                if key.startswith("ascii:width:"):
-                    pass
-                elif _nfields(case) == 1:
-                    atomic.setdefault(next(iter(_tags(case))), key)
-                else:
-                    expl = [atomic[t] for t in sorted(_tags(case)) if t in atomic]
-                    if expl:
-                        key = expl[0]
-                rep.violation(key, text, payload)
+        jobs += [("record", case, seed * 1000003 + i) for i, case in enumerate(cases)]
+    jobs.append(("traces", 300 if thorough else 80, 4, 40 if thorough else 25, seed))
+    out = run_jobs(jobs, NWORKERS)
+    for job, (status, res) in zip(jobs[:-1], out[:-1]):
+        case = job[1]
+        n += 1
+        nontriv += 1 if _nfields(case) else 0
+        if sample is None and _nfields(case) == 3:
+            sample = case
+        if status == "skipped":
+            continue
+        found = res if status == "ok" else [crash_key(job, res) + ({"direction": "replay", "layer": "record", "case_seed": job[2]},)]
+        for key, text, payload in found:
+            if key.startswith("ascii:width:"):
+                pass
+            elif _nfields(case) == 1:
+                atomic.setdefault(next(iter(_tags(case))), key)
+            else:
+                expl = [atomic[t] for t in sorted(_tags(case)) if t in atomic]
+                if expl:
+                    key = expl[0]
+            rep.violation(key, text, dict(payload, case=case))
     rep.add_replay("record-cases", n, nontriv,
                    "every record stream TLC enumerates is written by the real Binary/AsciiRecordWriter, measured by an independent "
                    "frame parser, and read back by the real reader with the same, a shorter and a longer call sequence; "
                    "non-trivial = at least one field")
     # code -> spec: long random histories recorded from the real writers, validated by TLC
-    traces = G.record_traces(300 if thorough else 80, 4, 40 if thorough else 25, seed)
-    bad, stats = tracecheck.validate("CcccRecord_trace", "CcccRecord_trace.cfg", MODDIR, traces, timeout=3000)
-    rep.add_tlc("trace-validation:records", stats["tlc"])
+    if out[-1][0] != "ok":
+        k, t = crash_key(jobs[-1], out[-1][1])
+        rep.violation(k, t, {"direction": "trace", "layer": "record"})
+        traces = []
+    else:
+        traces = out[-1][1]
+    bad = []
+    if traces:
+        bad, stats = tracecheck.validate("CcccRecord_trace", "CcccRecord_trace.cfg", MODDIR, traces, timeout=3000)
+        rep.add_tlc("trace-validation:records", stats["tlc"])
     rep.add_traces("record-writer-histories", len(traces), sum(len(t["ev"]) for t in traces),
                    "seeded random rw* histories (<= 4 records x <= 25/40 fields of random kind, width, length, shape) run on the "
                    "real writers; counter and buffered payload after every call and the measured frame at every close must be "
@@ -205,6 +285,8 @@ def run_formats(rep, thorough, seed, results):
         _tlc_verdict(rep, "exhaustive:" + results["fmt_mc"].cfgname, results["fmt_mc"])
         if results["fmt_mc"].coverage.get("EmitRecord", (0, 0))[1] == 0:
             raise tlc.MachineryError("vacuous: EmitRecord never taken")
+    jobs = []
+    loca_idx = None
     for grp in FMT_GROUPS:
         res = results["fmt_" + grp]
         _tlc_verdict(rep, "formats:%s" % res.cfgname, res)
@@ -216,29 +298,42 @@ def run_formats(rep, thorough, seed, results):
             per_fmt[fmt] = per_fmt.get(fmt, 0) + 1
             for t, cnt in case["counts"].items():
                 (tags_seen if cnt > 0 else tags_absent).setdefault(fmt, set()).add(t)
-            if timeouts.get(fmt, 0) >= 2:
-                skipped[fmt] = skipped.get(fmt, 0) + 1       # every case would cost CASE_TIMEOUT: the verdict is already recorded
-                continue
-            n += 1
-            for key, text, payload in check_format_case(case, seed * 7919 + i):
-                rep.violation(key, text, payload)
-                if ":timeout:" in key:
-                    timeouts[fmt] = timeouts.get(fmt, 0) + 1
-            for enc, st in check_format_case.stages.items():
-                # how far each case got: a (known) finding stops only its own case and encoding, every other
-                # enumerated header still runs all stages; the counts are measured, per format / class / encoding
-                d = stage_counts.setdefault(fmt, {}).setdefault("%s|%s" % (case.get("cls", "any"), enc), {})
-                d[st] = d.get(st, 0) + 1
-            if fmt == "ISOTXS" and loca_note is None and case["h"]["nNuc"] == 2 and case["h"]["nsblok"] == 2 and 1 in case["h"]["ords"]:
-                got = G.isotxs_loca(case, seed, scratch())
-                if got is not None and got != case["loca"]:
-                    loca_note = ("observation outside the statement: ISOTXS 2D record LOCA (records to skip per nuclide) is written as %s for "
-                                 "header %s; with NSBLOK sub-blocks per scattering block CCCC-IV counts %s (isotxs.py "
-                                 "_computeNumIsotxsRecords ignores sub-blocking; the reader ignores LOCA)" % (got, json.dumps(case["h"]), case["loca"]))
+            want_loca = (fmt == "ISOTXS" and loca_idx is None and case["h"]["nNuc"] == 2 and case["h"]["nsblok"] == 2 and 1 in case["h"]["ords"])
+            if want_loca:
+                loca_idx = len(jobs)
+            jobs.append(("format", case, seed * 7919 + i, want_loca))
             if not sampled and fmt == "GEODST" and case["h"].get("IGOM") == 6:
                 sampled = True
                 rep.sample({"kind": "format-case", "fmt": fmt, "header": case["h"], "records": [[r["tag"], r["bytes"]] for r in case["recs"]],
                             "binlen": case["binlen"], "asclen": case["asclen"]})
+    crashed = {}
+    for job, (status, res) in zip(jobs, run_jobs(jobs, NWORKERS)):
+        _, case, cseed, want_loca = job
+        fmt = case["fmt"]
+        base = {"direction": "replay", "layer": "format", "case": case, "case_seed": cseed}
+        if status == "crash":
+            key, text = crash_key(job, res)
+            rep.violation(key, text, base)
+            crashed[fmt] = crashed.get(fmt, 0) + 1
+            n += 1
+            d = stage_counts.setdefault(fmt, {}).setdefault("%s|%s" % (case.get("cls", "any"), "bin"), {})
+            d["crash"] = d.get("crash", 0) + 1
+            continue
+        if status == "skipped" or "skipped" in res:
+            skipped[fmt] = skipped.get(fmt, 0) + 1
+            continue
+        n += 1
+        for key, text, payload in res["found"]:
+            rep.violation(key, text, dict(payload, case=case))
+        for enc, st in res["stages"].items():
+            # how far each case got: a (known) finding stops only its own case and encoding, every other
+            # enumerated header still runs all stages; the counts are measured, per format / class / encoding
+            d = stage_counts.setdefault(fmt, {}).setdefault("%s|%s" % (case.get("cls", "any"), enc), {})
+            d[st] = d.get(st, 0) + 1
+        if want_loca and res["loca"] is not None and res["loca"] != case["loca"]:
+            loca_note = ("observation outside the statement: ISOTXS 2D record LOCA (records to skip per nuclide) is written as %s for "
+                         "header %s; with NSBLOK sub-blocks per scattering block CCCC-IV counts %s (isotxs.py "
+                         "_computeNumIsotxsRecords ignores sub-blocking; the reader ignores LOCA)" % (res["loca"], json.dumps(case["h"]), case["loca"]))
     missing = [f for f in FORMATS if f not in per_fmt]
     if missing:
         raise tlc.MachineryError("vacuous: no cases for formats %s" % missing)
@@ -249,7 +344,8 @@ def run_formats(rep, thorough, seed, results):
     if loca_note:
         rep.note(loca_note)
     for fmt, k in skipped.items():
-        rep.note("%s: %d cases skipped after two cases ran into the %g s watchdog (reported as timeout violations)" % (fmt, k, G.CASE_TIMEOUT))
+        rep.note("%s: %d cases skipped after earlier cases of the same class ran into the %g s watchdog or killed their worker process "
+                 "(reported as timeout / crash violations)" % (fmt, k, G.CASE_TIMEOUT))
     rep.extra["format_cases"] = per_fmt
     rep.extra["format_stage_reached"] = stage_counts
     # vacuity of the stages: every format must have cases that ran all stages (write, frames, read, read-back,
@@ -266,11 +362,12 @@ def run_formats(rep, thorough, seed, results):
 
 
 def run_fixtures(rep, thorough):
-    n = 0
-    for fx in G.fixtures(thorough):
-        n += 1
-        for key, text in G.run_fixture(fx, scratch()):
-            rep.violation(key, text, {"direction": "fixture", "layer": "fixture", "fixture": fx["name"]})
+    jobs = [("fixture", fx) for fx in G.fixtures(thorough)]
+    n = len(jobs)
+    for job, (status, res) in zip(jobs, run_jobs(jobs, NWORKERS)):
+        found = res if status == "ok" else ([crash_key(job, res)] if status == "crash" else [])
+        for key, text in found:
+            rep.violation(key, text, {"direction": "fixture", "layer": "fixture", "fixture": job[1]["name"]})
     rep.add_replay("fixtures", n, n, "files shipped with armi are read, re-written and byte-compared, directly and through the other encoding")
 
 
@@ -303,16 +400,28 @@ def replay(payload):
     armi_ready()
     layer = payload.get("layer")
     if layer == "record" and payload.get("direction") == "replay":
-        found = check_record_case(payload["case"], payload.get("case_seed", 0))
+        job = ("record", payload["case"], payload.get("case_seed", 0))
     elif layer == "format":
-        found = check_format_case(payload["case"], payload.get("case_seed", 0))
+        job = ("format", payload["case"], payload.get("case_seed", 0), False)
     elif layer == "fixture":
         fx = [f for f in G.fixtures(True) if f["name"] == payload["fixture"]]
-        found = [(k, t, None) for k, t in G.run_fixture(fx[0], scratch())] if fx else []
+        if not fx:
+            print("fixture %s not found" % payload["fixture"])
+            return 2
+        job = ("fixture", fx[0])
     else:
         print("replay of direction=%s: see payload (TLC trace / recorded trace)" % payload.get("direction"))
         return 0
-    for key, text, _ in found:
+    status, res = run_jobs([job], 1)[0]      # in a worker process: a replayed crash must not take the replayer down
+    if status == "crash":
+        found = [crash_key(job, res)]
+    elif job[0] == "format":
+        found = [(k, t) for k, t, _ in res.get("found", [])]
+    elif job[0] == "record":
+        found = [(k, t) for k, t, _ in res]
+    else:
+        found = list(res)
+    for key, text in found:
         print(key, "::", text)
     print("diverges" if found else "no divergence: case conforms")
     return 1 if found else 0
@@ -417,6 +526,12 @@ def mutants():
          lambda: _patch(rtflux, "getFDFluxReader", "if adjointFlag:", "if not adjointFlag:")),
         ("pmatrx-loop-bound-free-integer", "PMATRX: production-matrix loop bounded by an unrelated header integer (~1e7 iterations): the watchdog must turn it into a verdict", ("PMATRX",),
          lambda: _patch(pmatrx._PmatrxNuclideIO, "_rwCellAveragedProductionMatrix", 'self._metadata["maxScatteringOrder"]', 'abs(self._pmatrixIO._metadata["maxNumberOfRegions"])')),
+        # ---- third seeding round: native crash of the code under test (scipy given inconsistent CSR indices)
+        ("isotxs-reader-band-ends-at-diagonal", "ISOTXS 7D reader places each band as if it ended at the in-group term (ignores JJ): with "
+         "up-scatter the rows come back shifted, or scipy aborts the process on the inconsistent indices", ("ISOTXS", "GAMISO"),
+         lambda: _patch(isotxs._IsotxsNuclideIO, "_rw7DRecord", "indices.extend(range(jup - 1, jdown - 1, -1))", "indices.extend(range(g, g - bandWidth, -1))")),
+        ("isotxs-reader-segfault", "ISOTXS 5D reader dereferences a null pointer (stand-in for any native crash): the worker dies, the check must not", ("ISOTXS",),
+         lambda: _patch(isotxs._IsotxsNuclideIO, "_rw5DRecord", "micros = self._getMicros()", "micros = self._getMicros()\n        if 'r' in self._isotxsIO._fileMode and self._metadata['strpd'] > 0:\n            import ctypes\n            ctypes.string_at(0)")),
         ("pmatrx-gamma-heating-flag", "PMATRX: gamma-heating record keyed on hasNeutronHeatingAndDamage", ("PMATRX",),
          lambda: _patch(pmatrx._PmatrxNuclideIO, "_rwGammaHeating", 'if not self._metadata["hasGammaHeating"]:', 'if not self._metadata["hasNeutronHeatingAndDamage"]:')),
     ]
@@ -434,28 +549,30 @@ def selftest():
                 fmt_cases.setdefault(p["case"]["fmt"], []).append(p["case"])
 
     def keys_for(scope):
-        ks = set()
+        jobs = []
         for what in scope:
             if what == "record":
-                for i, c in enumerate(rec_cases):
-                    ks.update(k for k, _, _ in check_record_case(c, i))
+                jobs += [("record", c, i) for i, c in enumerate(rec_cases)]
             elif what == "trace":
-                traces = G.record_traces(30, 4, 12, 0)
-                bad, _ = tracecheck.validate("CcccRecord_trace", "CcccRecord_trace.cfg", MODDIR, traces, timeout=600)
+                jobs.append(("traces", 30, 4, 12, 0))
+            else:
+                jobs += [("format", c, i, False) for i, c in enumerate(fmt_cases[what][:400])]
+        ks = set()
+        for job, (status, res) in zip(jobs, run_jobs(jobs, NWORKERS)):
+            if status == "crash":
+                ks.add(crash_key(job, res)[0])
+            elif status == "skipped":
+                continue
+            elif job[0] == "record":
+                ks.update(k for k, _, _ in res)
+            elif job[0] == "format":
+                ks.update(k for k, _, _ in res.get("found", []))
+            else:
+                bad, _ = tracecheck.validate("CcccRecord_trace", "CcccRecord_trace.cfg", MODDIR, res, timeout=600)
                 for b in bad:
                     ev, k = b["trace"]["ev"], b["matched"]
                     a = (ev[k] if k < len(ev) else {}).get("a", {})
                     ks.add("trace:record:%s:%s%s" % (b["trace"].get("enc"), a.get("n0", "?"), (":" + a["k"]) if "k" in a else ""))
-            else:
-                for i, c in enumerate(fmt_cases[what][:400]):
-                    try:
-                        found = check_format_case(c, i)
-                    except RuntimeError as ex:
-                        ks.add("%s:machinery:%s" % (what, str(ex)[:60]))
-                        continue
-                    ks.update(k for k, _, _ in found)
-                    if any(":timeout:" in k for k, _, _ in found):
-                        break       # as in run(): the verdict is recorded, further cases would each cost the watchdog time
         return ks
 
     base = keys_for(("record", "trace") + FORMATS)
